@@ -233,6 +233,8 @@ def sigclip_and_sky(rep, r, n):
         img = rs.normal(10, 1, (25, 27))
         img[rs.rand(25, 27) < 0.05] += 40            # outliers to be clipped
         pos = [(r.uniform(-2, 28), r.uniform(-2, 26)) for _ in range(4)]
+        if r.random() < 0.6:                         # a position with no overlap at all, ahead of overlapping ones
+            pos[r.randrange(3)] = (r.choice([-30.0, 60.5]), r.uniform(-2, 26))
         lbs = rs.normal(0, 0.3, 4)
         sc = SigmaClip(sigma=3.0, maxiters=5)
         ap = CircularAperture(pos, 4.0)
